@@ -473,3 +473,118 @@ class BoolSetExpr(_BoolCodec):
         ctx.oblige("stores-Not(Not(.))-into-the-own-variable", z3.BoolVal(bool(ok)))
         if ok:
             ctx.oblige("of-the-given-expression", self.same(res.fields["value"].fields["args"][0].fields["args"][0], e))
+
+
+# ---- linking contracts: the Uint methods hand their own width and their own variable to the helpers above ---------------------------
+class _UintLink(Contract):
+    method = ""
+
+    def __init__(self):
+        import pyteal as pt
+        from pyteal.ast.abi import uint as U
+        from pyteal.ast.abstractvar import AbstractVar
+        self.pt, self.U, self.AbstractVar = pt, U, AbstractVar
+        self.raises_only = ()
+        self.fields, self.var_kinds, self.loops = {}, {}, {}
+        self.calls = []
+        self.callees = {}
+        for name in ("uint_set", "uint_decode", "uint_encode"):
+            self.callees[getattr(U, name)] = (lambda n: lambda I, args, kwargs: self.record(I, n, args, kwargs))(name)
+
+    def record(self, I, name, args, kwargs):
+        if kwargs:
+            raise Unsupported("helper called with keyword arguments")
+        I.ctx.ghost.setdefault("calls", []).append((name, list(args)))
+        return SRef(z3.Int("helper_result"), self.pt.Expr)
+
+    def this(self, ctx):
+        t, n = z3.Int("stored_value"), z3.Int("bit_size")
+        ctx.assume(t >= 0)
+        var = SRef(t, self.AbstractVar)
+        spec = stamp(SObj(self.U.UintTypeSpec, {"size": n}))
+        ctx.ghost.update(var=var, n=n, calls=[])
+        return stamp(SObj(self.U.Uint, {"_stored_value": var, "_type_spec": spec})), var
+
+    def ref(self, ctx, nm):
+        t = z3.Int(nm)
+        ctx.assume(t >= 0)
+        return SRef(t, self.pt.Expr)
+
+    def check(self, ctx, outcome, helper, want):
+        if outcome[0] == "raise":
+            ctx.oblige("never-raises", z3.BoolVal(False))
+            return
+        calls = ctx.ghost["calls"]
+        ok = len(calls) == 1 and calls[0][0] == helper and len(calls[0][1]) == len(want)
+        ctx.oblige(f"exactly-one-call-of-{helper}-whose-result-is-returned", z3.BoolVal(bool(ok and isinstance(outcome[1], SRef))))
+        if not ok:
+            return
+        ctx.oblige("returns-the-helper-result", outcome[1].term == z3.Int("helper_result"))
+        for (label, w), got in zip(want, calls[0][1]):
+            if isinstance(w, str) and w == "skip":
+                continue
+            if w is None:
+                g = z3.BoolVal(got is None)
+            elif is_z3(w):
+                g = (got == w) if is_z3(got) or isinstance(got, int) else z3.BoolVal(False)
+            else:
+                g = _Codec.same(got, w)
+            ctx.oblige(f"argument-{label}", g)
+
+
+class UintEncodeLink(_UintLink):
+    target = "pyteal.ast.abi.uint.Uint.encode"
+
+    def setup(self, ctx, I):
+        this, var = self.this(ctx)
+        return {"args": [this]}
+
+    def post(self, ctx, I, outcome, st):
+        self.check(ctx, outcome, "uint_encode", [("own-bit-size", ctx.ghost["n"]), ("own-variable", ctx.ghost["var"])])
+
+
+class UintDecodeLink(_UintLink):
+    target = "pyteal.ast.abi.uint.Uint.decode"
+
+    def setup(self, ctx, I):
+        this, var = self.this(ctx)
+        enc = self.ref(ctx, "encoded")
+        kw = {}
+        for nm in ("start_index", "end_index", "length"):
+            if ctx.branch(z3.Bool("has_" + nm)):
+                kw[nm] = self.ref(ctx, nm)
+        ctx.ghost.update(enc=enc, kw=kw)
+        return {"args": [this, enc], "kwargs": kw}
+
+    def post(self, ctx, I, outcome, st):
+        kw = ctx.ghost["kw"]
+        # end_index / length only matter to uint_decode through "is any of them given" (its contract O7.9): demanding positional identity
+        # would flag a harmless swap, so the clause is stated at that level
+        self.check(ctx, outcome, "uint_decode", [("own-bit-size", ctx.ghost["n"]), ("own-variable", ctx.ghost["var"]), ("encoded", ctx.ghost["enc"]),
+                                                  ("start-index", kw.get("start_index")), ("end-index", "skip"), ("length", "skip")])
+        calls = ctx.ghost["calls"]
+        if outcome[0] != "raise" and len(calls) == 1 and len(calls[0][1]) == 6:
+            ge, gl = calls[0][1][4], calls[0][1][5]
+            given = kw.get("end_index") is not None or kw.get("length") is not None
+            ctx.oblige("end-or-length-reach-the-helper-iff-the-caller-gave-one", z3.BoolVal((ge is not None or gl is not None) == given))
+            for g in (ge, gl):
+                if g is not None:
+                    ctx.oblige("what-reaches-the-helper-as-end-or-length-is-one-of-the-caller's", z3.Or(*[_Codec.same(g, kw[k]) for k in ("end_index", "length") if k in kw]) if given else z3.BoolVal(False))
+
+
+class UintSetLink(_UintLink):
+    """value: a python int or a plain expression (neither ComputedValue nor ABI value; those branches: bounded copy matrix, C19 O19.4)"""
+    target = "pyteal.ast.abi.uint.Uint.set"
+
+    def setup(self, ctx, I):
+        this, var = self.this(ctx)
+        if ctx.branch(z3.Bool("value_is_python_int")):
+            v = z3.Int("value")
+        else:
+            v = self.ref(ctx, "value_expr")
+            self.callees[("isinstance", self.pt.Expr)] = lambda I_, x, classes: False
+        ctx.ghost.update(v=v)
+        return {"args": [this, v]}
+
+    def post(self, ctx, I, outcome, st):
+        self.check(ctx, outcome, "uint_set", [("own-bit-size", ctx.ghost["n"]), ("own-variable", ctx.ghost["var"]), ("the-value", ctx.ghost["v"])])
